@@ -1038,13 +1038,10 @@ Definition cx_path : bytes := bs "/x/{a1c/2/z".
 Example cx_hist4_accepted : all_accepted (new_tree (bs "r") [] false) cx_hist4 = true.
 Proof. vm_compute. reflexivity. Qed.
 
-Example cx_dispatch4 :
-  match tree_handler cx_tree4 GET cx_path [] with
-  | HFound true (Some n) h ps =>
-    npat n = bs "/x/{a{b}c/{k}" /\ h = HUser (bs "h3") /\ ps = [(bs "k", bs "2/z")]
-  | _ => False
-  end.
-Proof. vm_compute. repeat split. Qed.
+Example cx_dispatch4 : exists n,
+  tree_handler cx_tree4 GET cx_path [] = HFound true (Some n) (HUser (bs "h3")) [(bs "k", bs "2/z")] /\
+  npat n = bs "/x/{a{b}c/{k}".
+Proof. vm_compute. eexists. split; reflexivity. Qed.
 
 (* before the last registration the same route reports both of its parameters *)
 Example cx_dispatch3 :
@@ -1140,15 +1137,13 @@ Proof. vm_compute. reflexivity. Qed.
 Example ex_names_wf : hist_wf ex_names_hist = true.
 Proof. vm_compute. reflexivity. Qed.
 
-Example ex_names_dispatch :
-  match tree_handler ex_names_tree GET (bs "/users/5/7/log") [] with
-  | HFound true (Some n) h ps =>
-    npat n = bs "/users/{id}/{action}/log" /\ h = HUser (bs "log") /\
-    ps = [(bs "id", bs "5"); (bs "action", bs "7")] /\
-    ctx_get ps (bs "action") = Some (bs "7") /\ ctx_get ps (bs "id") = Some (bs "5")
-  | _ => False
-  end.
-Proof. vm_compute. repeat split. Qed.
+Example ex_names_dispatch : exists n,
+  tree_handler ex_names_tree GET (bs "/users/5/7/log") [] =
+    HFound true (Some n) (HUser (bs "log")) [(bs "id", bs "5"); (bs "action", bs "7")] /\
+  npat n = bs "/users/{id}/{action}/log" /\
+  ctx_get [(bs "id", bs "5"); (bs "action", bs "7")] (bs "action") = Some (bs "7") /\
+  ctx_get [(bs "id", bs "5"); (bs "action", bs "7")] (bs "id") = Some (bs "5").
+Proof. vm_compute. eexists. repeat split. Qed.
 
 Example ex_names_dispatch_page :
   match tree_handler ex_names_tree GET (bs "/users/5/7") [] with
@@ -1176,3 +1171,29 @@ Qed.
 Example ex_pat_wf :
   pat_wf (bs "/posts/{id:\d+}/{-skip}/author.{ext}") = true /\ pat_wf (bs "/x/{a{b}c") = false.
 Proof. vm_compute. split; reflexivity. Qed.
+
+(* the concrete findings and the example, as single statements for Props/C01names.v *)
+Lemma names_counterexample :
+  all_accepted (new_tree (bs "r") [] false) cx_hist = true /\ hist_wf cx_hist = false /\
+  let a := kid 0 (troot cx_tree) in let b := kid 0 a in let c := kid 0 b in let d := kid 0 c in
+  sval (nseg a) = bs "/x/" /\ sval (nseg b) = bs "{a" /\
+  sval (nseg c) = bs "{b}c/" /\ sname (nseg c) = bs "b" /\ seg_sets (nseg c) = true /\
+  sval (nseg d) = bs "{b}" /\ sname (nseg d) = bs "b" /\ npat d = bs "/x/{a{b}c/{b}".
+Proof. exact (conj cx_hist_accepted (conj cx_hist_not_wf cx_chain)). Qed.
+
+Lemma dispatch_counterexample :
+  all_accepted (new_tree (bs "r") [] false) cx_hist4 = true /\
+  exists n,
+    tree_handler cx_tree4 GET cx_path [] = HFound true (Some n) (HUser (bs "h3")) [(bs "k", bs "2/z")] /\
+    npat n = bs "/x/{a{b}c/{k}".
+Proof. exact (conj cx_hist4_accepted cx_dispatch4). Qed.
+
+Lemma names_example :
+  all_accepted (new_tree (bs "r") [] false) ex_names_hist = true /\ hist_wf ex_names_hist = true /\
+  exists n,
+    tree_handler ex_names_tree GET (bs "/users/5/7/log") [] =
+      HFound true (Some n) (HUser (bs "log")) [(bs "id", bs "5"); (bs "action", bs "7")] /\
+    npat n = bs "/users/{id}/{action}/log" /\
+    ctx_get [(bs "id", bs "5"); (bs "action", bs "7")] (bs "action") = Some (bs "7") /\
+    ctx_get [(bs "id", bs "5"); (bs "action", bs "7")] (bs "id") = Some (bs "5").
+Proof. exact (conj ex_names_accepted (conj ex_names_wf ex_names_dispatch)). Qed.
